@@ -33,6 +33,7 @@ SCRIPTS = {
     # a log that begins in the middle of a session: the first line of the tag is a message the tool cannot take in
     'r': dict(events=[['reject'], ['creq', 3, 'wl_callback'], ['use', 3], ['reject'], ['del', 3]], role='unknown'),
     'r2': dict(events=[['reject'], ['get_registry']], role='unknown'),
+    'r0': dict(events=[['reject']], role='unknown'),      # a connection that is opened and never gets a message recorded
     # an id is mentioned (its object was created before the log began) and only later created
     'p': dict(events=[['get_registry'], ['orphan', 3], ['creq', 3, 'wl_callback'], ['use', 3], ['del', 3]], role='client'),
     'b3': dict(events=[['get_registry'], ['creq', 3, 'wl_callback'], ['del', 3]], role='client'),
@@ -45,7 +46,7 @@ SCRIPTS = {
 }
 
 TUPLES_QUICK = [('a', 'b'), ('a', 'c'), ('b', 'd'), ('e', 'a'), ('b3', 'd3', 'f3'), ('b3', 'b3', 'b3'), ('q', 'b'), ('o', 'b3'),
-                ('r', 'b3'), ('r2', 'b3', 'r2'), ('p', 'b3')]
+                ('r', 'b3'), ('r2', 'b3', 'r2'), ('p', 'b3'), ('r0', 'b3', 'g2')]
 TUPLES_THOROUGH = TUPLES_QUICK + [('c', 'd'), ('e', 'c'), ('b', 'b'), ('d', 'd'), ('a4', 'c4', 'g2'), ('c4', 'a4', 'b3'),
                                   ('a', 'b', 'd3'), ('c', 'e', 'b3'), ('d', 'b', 'g2'), ('a4', 'c4', 'a4'),
                                   ('b3', 'd3', 'f3', 'g2')]
@@ -92,6 +93,13 @@ def observe(lines_with_conn):
     listing_open, _ = s.cmd('connection')
     closing, cerr = s.close()
     listing_closed, _ = s.cmd('connection')
+    # what `list` shows for each connection on its own (the record of one connection is that connection's lines)
+    s.per_connection = {}
+    for cl in map(outparse.connection_line, listing_closed):
+        if cl:
+            s.cmd('connection ' + cl['name'])
+            s.per_connection[cl['name']] = (s.cmd('list *')[0], s.cmd('list * ~ 1')[0])
+    s.cmd('connection all')
     return s, per_line, listing_open, closing, listing_closed
 
 
@@ -152,6 +160,17 @@ def eval_ilv(case):
         want_closed = sorted((names[ci], roles[ci]) for ci in range(nconn))
         if got_closed != want_closed or len(closing) != len(want_closed):
             V.append(Violation('notice.closed', case, {'expected': want_closed, 'observed': closing}))
+        for ci in range(nconn):
+            listed, capped = s.per_connection.get(names[ci], ([], []))
+            got = [body(outparse.classify(l)[1]['text']) for l in listed if outparse.classify(l)[0] == 'message']
+            if got != proj[ci] and len(proj[ci]) == len([e for e in SCRIPTS[case['scripts'][ci]]['events'] if e[0] != 'reject']):
+                V.append(Violation('isolation.list_of_connection', case, {'connection': names[ci], 'expected': proj[ci], 'listed': got}))
+            cnt = [r for c, r in map(outparse.classify, capped) if c == 'count']
+            none_of = [r for c, r in map(outparse.classify, capped) if c == 'none_of']
+            total = (cnt[0]['matched'] + cnt[0]['didnt'] + cnt[0]['notchecked']) if cnt else (none_of[0]['n'] if none_of else 0)
+            if total != len(proj[ci]) and len(proj[ci]) == len([e for e in SCRIPTS[case['scripts'][ci]]['events'] if e[0] != 'reject']):
+                V.append(Violation('isolation.list_counts_of_connection', case, {'connection': names[ci], 'messages': len(proj[ci]),
+                                                                                  'counts_add_up_to': total, 'footer': capped[-1:]}))
         # object tables through the Connection interface
         conns = {c.name(): c for c in s.cm.connections()}
         for ci in range(nconn):
